@@ -57,7 +57,10 @@ Section Refinement.
   Notation get_user_by_token := (get_user_by_token H).
   Notation update_user := (update_user H).
 
-  Definition wf (db : list user) : Prop := NoDup (map uid db).
+  Notation wf := (Auth.wf H).
+  Notation urel := (Auth.urel H hash).
+  Notation Rmap := (Auth.Rmap H hash).
+  Notation R := (Auth.R H hash).
 
   (* ---- database.rs facts ---- *)
   Lemma get_uid_some : forall db u x, get_user_by_uid db u = Some x -> In x db /\ uid x = u.
@@ -75,7 +78,7 @@ Section Refinement.
   Lemma get_uid_in : forall db x, wf db -> In x db -> get_user_by_uid db (uid x) = Some x.
   Proof.
     induction db as [|y r IH]; intros x Hwf Hin; [contradiction|].
-    unfold wf in Hwf. cbn [map] in Hwf. inversion Hwf as [|? ? Hni Hnd]; subst.
+    unfold Auth.wf in Hwf. cbn [map] in Hwf. inversion Hwf as [|? ? Hni Hnd]; subst.
     unfold Auth.get_user_by_uid. cbn [find].
     destruct Hin as [->|Hin].
     - rewrite N.eqb_refl. reflexivity.
@@ -133,7 +136,7 @@ Section Refinement.
 
   Lemma wf_filter : forall (f : user -> bool) db, wf db -> wf (filter f db).
   Proof.
-    unfold wf. induction db as [|y r IH]; intros Hwf; [constructor|].
+    unfold Auth.wf. induction db as [|y r IH]; intros Hwf; [constructor|].
     cbn [map] in Hwf. inversion Hwf as [|? ? Hni Hnd]; subst.
     cbn [filter]. destruct (f y).
     - cbn [map]. constructor; [|apply IH; assumption].
@@ -154,22 +157,11 @@ Section Refinement.
 
   Lemma wf_app1 : forall db nu, wf db -> get_user_by_uid db (uid nu) = None -> wf (db ++ [nu]).
   Proof.
-    unfold wf. intros db nu Hwf Hn. rewrite map_app. cbn [map].
+    unfold Auth.wf. intros db nu Hwf Hn. rewrite map_app. cbn [map].
     apply NoDup_snoc; [assumption|]. apply get_uid_none. assumption.
   Qed.
 
   (* ---- the simulation relation ---- *)
-  Definition urel (x : user) (e : rentry) : Prop :=
-    e_sess e = session x /\ exists salt, phash x = hash (e_pw e) salt (e_pep e).
-
-  Definition Rmap (db : list user) (r : rstate) : Prop :=
-    forall u, match get_user_by_uid db u with
-              | None => r_map r u = None
-              | Some x => exists e, r_map r u = Some e /\ urel x e
-              end.
-
-  Definition R (s : state) (r : rstate) : Prop := cfg s = r_cfg r /\ Rmap (users s) r.
-
   Lemma Rmap_some : forall db r u x, Rmap db r -> get_user_by_uid db u = Some x ->
     exists e, r_map r u = Some e /\ urel x e.
   Proof. intros db r u x HR Hg. specialize (HR u). rewrite Hg in HR. exact HR. Qed.
@@ -242,9 +234,6 @@ Section Refinement.
   Qed.
 
   (* ---- the operations, one by one ---- *)
-  Definition tok_unique (r : rstate) : Prop :=
-    forall t u x u' x', holder r t u x -> holder r t u' x' -> u = u'.
-
   Lemma create_session_refines : forall (s : state) r u life now now2 tok s' o,
     wf (users s) -> R s r ->
     create_session H s u life now now2 tok = (s', o) ->
@@ -255,7 +244,7 @@ Section Refinement.
     - destruct (Rmap_some _ _ _ _ (proj2 HR) Hg) as [e [He [Hs Hp]]].
       destruct (negb _) eqn:Hv.
       + destruct (R_set_session s r u x e (Some (new_session tok now2 life)) HR Hg He) as [db' [Hu [Hm HR']]].
-        rewrite Hu in Hst. inversion Hst; subst s' o. split; [unfold wf; cbn [users with_db]; rewrite Hm; exact Hwf|].
+        rewrite Hu in Hst. inversion Hst; subst s' o. split; [unfold Auth.wf; cbn [users with_db]; rewrite Hm; exact Hwf|].
         exists (rupd r u (Some (e_with e (Some (new_session tok now2 life))))). split; [|exact HR'].
         apply rc_ok with (e := e); [exact He| |apply upd_rupd].
         intros [t [xx [Hes Hl]]]. rewrite Hs in Hes. rewrite Hes in Hv. unfold valid in Hv. cbn [snd] in Hv.
@@ -348,7 +337,7 @@ Section Refinement.
         * destruct (R_set_session s r (uid y) y e (Some (t, sat_add now2 (c_refresh (cfg s)))) HR Hg He)
             as [db' [Hup [Hm HR']]].
           rewrite Hup in Hst. inversion Hst; subst s' x.
-          split; [unfold wf; cbn [users with_db]; rewrite Hm; exact Hwf|].
+          split; [unfold Auth.wf; cbn [users with_db]; rewrite Hm; exact Hwf|].
           eexists. split; [|exact HR'].
           apply rs_refresh_ok with (u := uid y) (e := e) (x := xx); auto.
           -- destruct Hu as [Hu _]. congruence.
@@ -364,7 +353,7 @@ Section Refinement.
       + destruct (tok_found _ _ _ _ Hwf HRm Hf) as [e [xx [Hg [Hs [He [Hu Hh]]]]]].
         destruct (R_set_session s r (uid y) y e None HR Hg He) as [db' [Hup [Hm HR']]].
         rewrite Hup in Hst. inversion Hst; subst s' x.
-        split; [unfold wf; cbn [users with_db]; rewrite Hm; exact Hwf|].
+        split; [unfold Auth.wf; cbn [users with_db]; rewrite Hm; exact Hwf|].
         eexists. split; [|exact HR'].
         apply rs_invalidate_held with (u := uid y) (e := e) (x := xx); [exact He| |apply upd_rupd].
         destruct Hu as [Hu _]. congruence.
@@ -375,7 +364,7 @@ Section Refinement.
       + destruct (Rmap_some _ _ _ _ HRm Hg) as [e [He _]].
         destruct (R_set_session s r u y e None HR Hg He) as [db' [Hup [Hm HR']]].
         rewrite Hup in Hst. inversion Hst; subst s' x.
-        split; [unfold wf; cbn [users with_db]; rewrite Hm; exact Hwf|].
+        split; [unfold Auth.wf; cbn [users with_db]; rewrite Hm; exact Hwf|].
         eexists. split; [|exact HR'].
         apply rs_invalidate_user with (e := e); [exact He|apply upd_rupd].
       + inversion Hst; subst s' x. split; [exact Hwf|]. exists r. split; [|exact HR].
@@ -1094,3 +1083,340 @@ Section Traces.
     destruct Hin as [<-|Hin]; [apply (rstep_no_crash _ _ _ _ Hstep)|apply IH; exact Hin].
   Qed.
 End Traces.
+
+(* ================================================================================================ *)
+(* Part 4: what tok_status means, in plain terms (facts about the history functions alone)            *)
+
+Lemma tok_fold_app : forall t h1 h2 a,
+  fold_left (tok_event t) (h1 ++ h2) a = fold_left (tok_event t) h2 (fold_left (tok_event t) h1 a).
+Proof. intros. apply fold_left_app. Qed.
+
+(* a token that stands for nothing keeps standing for nothing until the RNG produces it (again) *)
+Lemma tok_none_stays : forall t h a,
+  snd a = None -> (forall ev, In ev h -> ~ In t (op_fresh_tok (fst ev))) ->
+  snd (fold_left (tok_event t) h a) = None.
+Proof.
+  intros t h. induction h as [|[o x] h IH]; intros a Ha Hno; [exact Ha|].
+  cbn [fold_left]. apply IH.
+  - destruct (snd (tok_event t a (o, x))) as [[u xx]|] eqn:E; [|reflexivity].
+    apply tok_event_some in E. destruct E as [[u0 [x0 E]]|E].
+    + rewrite Ha in E. discriminate.
+    + exfalso. apply (Hno (o, x)); [left; reflexivity|exact E].
+  - intros ev Hin. apply Hno. right. exact Hin.
+Qed.
+
+(* the owner recorded for a token is the user it was issued to *)
+Lemma tok_event_owner : forall t a o x u xx,
+  snd (tok_event t a (o, x)) = Some (u, xx) ->
+  (exists x0, snd a = Some (u, x0)) \/
+  (exists v, x = Ok v /\ ((exists n n2, o = CreateSession u n n2 t) \/ (exists l n n2, o = CreateSessionLt u l n n2 t))).
+Proof.
+  intros t [c st] o x u xx Hs.
+  assert (Hdrop : forall u2, drop_owner u2 st = Some (u, xx) -> exists x0, snd (c, st) = Some (u, x0))
+    by (intros u2 E; apply drop_owner_some in E; destruct E as [E _]; exists xx; exact E).
+  destruct o; destruct x; cbn [tok_event snd] in Hs; try (left; exists xx; exact Hs); try (left; eapply Hdrop; exact Hs).
+  - destruct (N.eqb_spec fresh_tok t) as [E|E]; [|left; eapply Hdrop; exact Hs].
+    inversion Hs; subst. right. exists a. split; [reflexivity|]. left. eauto.
+  - destruct (N.eqb_spec fresh_tok t) as [E|E]; [|left; eapply Hdrop; exact Hs].
+    inversion Hs; subst. right. exists a. split; [reflexivity|]. right. eauto.
+  - destruct (N.eqb_spec t0 t) as [E|E]; [|left; exists xx; exact Hs].
+    destruct st as [[u1 x1]|]; [|discriminate]. inversion Hs; subst. left. exists x1. reflexivity.
+  - destruct (N.eqb_spec t0 t) as [E|E]; [discriminate|left; exists xx; exact Hs].
+  - destruct (N.eqb_spec t0 t) as [E|E]; [discriminate|left; exists xx; exact Hs].
+  - destruct (N.eqb_spec t0 t) as [E|E]; [discriminate|left; exists xx; exact Hs].
+Qed.
+
+Definition issues_to (t u : N) (ev : event) : Prop :=
+  exists v, snd ev = Ok v /\
+            ((exists n n2, fst ev = CreateSession u n n2 t) \/ (exists l n n2, fst ev = CreateSessionLt u l n n2 t)).
+
+Lemma tok_status_issued_gen : forall t h a u x,
+  snd (fold_left (tok_event t) h a) = Some (u, x) ->
+  (exists x0, snd a = Some (u, x0)) \/ exists ev, In ev h /\ issues_to t u ev.
+Proof.
+  intros t h. induction h as [|[o y] h IH]; intros a u x Hs.
+  - left. exists x. exact Hs.
+  - cbn [fold_left] in Hs. destruct (IH _ _ _ Hs) as [[x0 E]|[ev [Hin Hi]]].
+    + apply tok_event_owner in E. destruct E as [E|[v [Ev Ho]]]; [left; exact E|].
+      right. exists (o, y). split; [left; reflexivity|]. exists v. split; [exact Ev|exact Ho].
+    + right. exists ev. split; [right; exact Hin|exact Hi].
+Qed.
+
+Theorem tok_status_issued : forall c h t u x,
+  tok_status c h t = Some (u, x) -> exists ev, In ev h /\ issues_to t u ev.
+Proof.
+  intros c h t u x Hs. destruct (tok_status_issued_gen _ _ _ _ _ Hs) as [[x0 E]|E]; [discriminate|exact E].
+Qed.
+
+(* operations that do not touch t or its owner leave its standing alone *)
+Lemma tok_event_frame : forall t u x c o y,
+  ~ touches t u o -> snd (tok_event t (c, Some (u, x)) (o, y)) = Some (u, x).
+Proof.
+  intros t u x c o y Hn. destruct o; destruct y; cbn [tok_event snd touches] in *; try reflexivity;
+    try (match goal with |- context [?a =? ?b] => destruct (N.eqb_spec a b) as [E|E] end);
+    try reflexivity; try (exfalso; apply Hn; auto; fail);
+    try (cbn [drop_owner]; match goal with |- context [?a =? ?b] => destruct (N.eqb_spec a b) as [E'|E'] end;
+         [exfalso; apply Hn; auto|reflexivity]).
+Qed.
+
+Lemma tok_frame : forall t u x h a,
+  snd a = Some (u, x) -> (forall ev, In ev h -> ~ touches t u (fst ev)) ->
+  snd (fold_left (tok_event t) h a) = Some (u, x).
+Proof.
+  intros t u x h. induction h as [|[o y] h IH]; intros [c st] Ha Hno; [exact Ha|].
+  cbn [fold_left]. cbn [snd] in Ha. subst st. apply IH.
+  - apply tok_event_frame. apply (Hno (o, y)). left. reflexivity.
+  - intros ev Hin. apply Hno. right. exact Hin.
+Qed.
+
+(* ================================================================================================ *)
+(* Part 5: the clauses of the property, in plain terms, for every history of the model                *)
+Section Plain.
+  Variable H : Type.
+  Variable hash : pwd -> N -> pepper -> H.
+  Variable verify_hash : H -> pwd -> pepper -> bool.
+  Hypothesis verify_ok : forall pw salt pep pw' pep',
+    verify_hash (hash pw salt pep) pw' pep' = true <-> pw' = pw /\ pep' = pep.
+
+  Notation state := (state H).
+  Notation step := (step H hash verify_hash).
+  Notation run := (run H hash verify_hash).
+  Notation history := (history H hash verify_hash).
+  Notation init := (init H).
+
+  Lemma combine_app_eq : forall (A B : Type) (a1 a2 : list A) (b1 b2 : list B),
+    length a1 = length b1 -> combine (a1 ++ a2) (b1 ++ b2) = combine a1 b1 ++ combine a2 b2.
+  Proof.
+    induction a1 as [|x a1 IH]; intros a2 b1 b2 Hl; destruct b1 as [|y b1]; try discriminate; [reflexivity|].
+    cbn [app combine]. f_equal. apply IH. cbn [length] in Hl. congruence.
+  Qed.
+
+  Lemma history_cons_app : forall c pre0 o1 mid,
+    history c (pre0 ++ o1 :: mid) =
+    history c pre0 ++ (o1, snd (step (fst (run (init c) pre0)) o1))
+      :: combine mid (snd (run (fst (step (fst (run (init c) pre0)) o1)) mid)).
+  Proof.
+    intros c pre0 o1 mid. unfold Auth.history. rewrite (run_app H hash verify_hash). cbn [snd].
+    rewrite combine_app_eq; [|symmetry; apply run_length].
+    rewrite (run_cons H hash verify_hash). cbn [snd combine]. reflexivity.
+  Qed.
+
+  Lemma combine_fst_in : forall (A B : Type) (l : list A) (m : list B) ev, In ev (combine l m) -> In (fst ev) l.
+  Proof. intros A B l m [a b] Hin. apply in_combine_l in Hin. exact Hin. Qed.
+
+  (* a token that is accepted was issued to exactly the user it authenticates *)
+  Theorem accepted_was_issued_to : forall c pre o t now u,
+    rng_ok pre -> presents o = Some (t, now) ->
+    snd (step (fst (run (init c) pre)) o) = Ok (VId u) ->
+    exists ev, In ev (history c pre) /\ issues_to t u ev.
+  Proof.
+    intros c pre o t now u Hr Hp Ho.
+    rewrite (token_verdict H hash verify_hash verify_ok c pre o t now Hr Hp) in Ho. unfold verdict in Ho.
+    destruct (tok_status c (history c pre) t) as [[u' x]|] eqn:Es.
+    - destruct (now <? x).
+      + assert (u' = u).
+        { destruct o as [| | | | | |t0 n n2| | |t0 n|[t0|] n|]; cbn in Hp, Ho; try discriminate; inversion Ho; reflexivity. }
+        subst u'. apply (tok_status_issued _ _ _ _ _ Es).
+      + destruct o as [| | | | | |t0 n n2| | |t0 n|[t0|] n|]; cbn in Hp, Ho; discriminate.
+    - destruct o as [| | | | | |t0 n n2| | |t0 n|[t0|] n|]; cbn in Hp, Ho; discriminate.
+  Qed.
+
+  (* after a successful create_session_with_lifetime, as long as nothing touches the token or its owner, the token
+     authenticates exactly that user strictly before now2 + lifetime (saturating), and nobody from then on *)
+  Theorem issued_token_verdict : forall c pre0 u life n0 n2 t mid o now,
+    rng_ok (pre0 ++ CreateSessionLt u life n0 n2 t :: mid) ->
+    snd (step (fst (run (init c) pre0)) (CreateSessionLt u life n0 n2 t)) = Ok (VId t) ->
+    (forall o', In o' mid -> ~ touches t u o') ->
+    presents o = Some (t, now) ->
+    snd (step (fst (run (init c) (pre0 ++ CreateSessionLt u life n0 n2 t :: mid))) o) =
+    if now <? sat_add n2 life then accept_out o u else reject_out o.
+  Proof.
+    intros c pre0 u life n0 n2 t mid o now Hr Hok Hno Hp.
+    rewrite (token_verdict H hash verify_hash verify_ok c _ o t now Hr Hp).
+    unfold tok_status. rewrite history_cons_app. rewrite tok_fold_app. cbn [fold_left]. rewrite Hok.
+    rewrite (tok_frame t u (sat_add n2 life)).
+    - reflexivity.
+    - destruct (fold_left (tok_event t) (history c pre0) (c, None)) as [c1 st1]. cbn [tok_event snd].
+      rewrite N.eqb_refl. reflexivity.
+    - intros ev Hin. apply Hno. apply (combine_fst_in _ _ _ _ _ Hin).
+  Qed.
+
+  (* the same for create_session with the configured default lifetime *)
+  Theorem issued_default_token_verdict : forall c pre0 u n0 n2 t mid o now,
+    rng_ok (pre0 ++ CreateSession u n0 n2 t :: mid) ->
+    snd (step (fst (run (init c) pre0)) (CreateSession u n0 n2 t)) = Ok (VId t) ->
+    (forall o', In o' mid -> ~ touches t u o') ->
+    presents o = Some (t, now) ->
+    snd (step (fst (run (init c) (pre0 ++ CreateSession u n0 n2 t :: mid))) o) =
+    if now <? sat_add n2 (c_life (cfg (fst (run (init c) pre0)))) then accept_out o u else reject_out o.
+  Proof.
+    intros c pre0 u n0 n2 t mid o now Hr Hok Hno Hp.
+    rewrite (token_verdict H hash verify_hash verify_ok c _ o t now Hr Hp).
+    destruct (reach_inv H hash verify_hash verify_ok c pre0 _ Hr) as [r [_ [_ Hi]]].
+    pose proof (inv_tok _ _ _ _ _ _ Hi t) as [Hc _]. pose proof (inv_R _ _ _ _ _ _ Hi) as [Hc' _].
+    unfold tok_status. rewrite history_cons_app. rewrite tok_fold_app. cbn [fold_left]. rewrite Hok.
+    rewrite (tok_frame t u (sat_add n2 (c_life (cfg (fst (run (init c) pre0)))))).
+    - reflexivity.
+    - destruct (fold_left (tok_event t) (history c pre0) (c, None)) as [c1 st1]. cbn [tok_event snd fst] in *.
+      rewrite N.eqb_refl. congruence.
+    - intros ev Hin. apply Hno. apply (combine_fst_in _ _ _ _ _ Hin).
+  Qed.
+
+  (* invalidate_session kills the token for good *)
+  Theorem rejected_after_invalidation : forall c pre0 t mid o now,
+    rng_ok (pre0 ++ InvalidateSession t :: mid) -> ~ In t (fresh_toks mid) ->
+    presents o = Some (t, now) ->
+    snd (step (fst (run (init c) (pre0 ++ InvalidateSession t :: mid))) o) = reject_out o.
+  Proof.
+    intros c pre0 t mid o now Hr Hnf Hp.
+    rewrite (token_verdict H hash verify_hash verify_ok c _ o t now Hr Hp).
+    unfold tok_status. rewrite history_cons_app. rewrite tok_fold_app. cbn [fold_left].
+    rewrite tok_none_stays; [reflexivity| |].
+    - destruct (fold_left (tok_event t) (history c pre0) (c, None)) as [c1 st1]. cbn [tok_event snd].
+      rewrite N.eqb_refl. reflexivity.
+    - intros ev Hin Hf. apply Hnf. unfold fresh_toks. apply in_flat_map. exists (fst ev).
+      split; [apply (combine_fst_in _ _ _ _ _ Hin)|exact Hf].
+  Qed.
+
+  (* removing the owner, or invalidating the owner's session by uid, kills the token for good *)
+  Theorem rejected_after_owner_gone : forall c pre0 t u x0 o1 mid o now,
+    o1 = RemoveUser u \/ o1 = InvalidateUser u ->
+    rng_ok (pre0 ++ o1 :: mid) -> ~ In t (fresh_toks mid) ->
+    tok_status c (history c pre0) t = Some (u, x0) ->
+    presents o = Some (t, now) ->
+    snd (step (fst (run (init c) (pre0 ++ o1 :: mid))) o) = reject_out o.
+  Proof.
+    intros c pre0 t u x0 o1 mid o now Ho1 Hr Hnf Hs Hp.
+    rewrite (token_verdict H hash verify_hash verify_ok c _ o t now Hr Hp).
+    unfold tok_status in *. rewrite history_cons_app. rewrite tok_fold_app. cbn [fold_left].
+    rewrite tok_none_stays; [reflexivity| |].
+    - destruct (fold_left (tok_event t) (history c pre0) (c, None)) as [c1 st1]. cbn [snd] in Hs. subst st1.
+      destruct Ho1; subst o1; cbn [tok_event snd drop_owner]; rewrite N.eqb_refl; reflexivity.
+    - intros ev Hin Hf. apply Hnf. unfold fresh_toks. apply in_flat_map. exists (fst ev).
+      split; [apply (combine_fst_in _ _ _ _ _ Hin)|exact Hf].
+  Qed.
+End Plain.
+
+(* ================================================================================================ *)
+(* Part 6: the executable instance satisfies the Argon2 hypothesis; the pre-repair refresh is refuted  *)
+Lemma list_eqb_eq : forall a b, list_eqb a b = true <-> a = b.
+Proof.
+  induction a as [|x a IH]; destruct b as [|y b]; cbn [list_eqb]; split; try discriminate; try reflexivity.
+  - intros Hb. apply andb_true_iff in Hb. destruct Hb as [E1 E2]. apply N.eqb_eq in E1. apply IH in E2. congruence.
+  - intros E. inversion E; subst. rewrite N.eqb_refl. cbn. apply IH. reflexivity.
+Qed.
+
+Lemma pepper_eqb_eq : forall a b, pepper_eqb a b = true <-> a = b.
+Proof.
+  intros [a|] [b|]; cbn [pepper_eqb]; split; try discriminate; try reflexivity.
+  - intros Hb. apply list_eqb_eq in Hb. congruence.
+  - intros E. inversion E; subst. apply list_eqb_eq. reflexivity.
+Qed.
+
+Lemma xverify_ok : forall pw salt pep pw' pep',
+  xverify (xhash pw salt pep) pw' pep' = true <-> pw' = pw /\ pep' = pep.
+Proof.
+  intros. unfold xverify, xhash. cbn [fst snd]. rewrite andb_true_iff, list_eqb_eq, pepper_eqb_eq. tauto.
+Qed.
+
+(* with the old refresh_session a token that has just been rejected as expired is accepted again *)
+Lemma refresh_old_refuted :
+  exists c ops1 o1 ops2 t now1,
+    env_ok (ops1 ++ o1 :: ops2) /\ presents o1 = Some (t, now1) /\ ~ In t (fresh_toks ops2) /\
+    snd (xstep_old (fst (xrun_old (xinit c) ops1)) o1) = reject_out o1 /\
+    exists o x now,
+      In (o, x) (combine ops2 (snd (xrun_old (fst (xstep_old (fst (xrun_old (xinit c) ops1)) o1)) ops2))) /\
+      presents o = Some (t, now) /\ x <> reject_out o.
+Proof.
+  exists default_config, [CreateUser [112; 119] 0 0; CreateSessionLt 0 0 100 100 7], (GetUid 7 100),
+         [Refresh 7 100 100; GetUid 7 101; Route (Some 7) 3000], 7, 100.
+  split; [|split; [reflexivity|split; [cbn; tauto|split; [vm_compute; reflexivity|]]]].
+  - split.
+    + cbn. repeat split; lia.
+    + cbn. repeat constructor; cbn; tauto.
+  - exists (GetUid 7 101), (Ok (VId 0)), 101. split; [vm_compute; tauto|]. split; [reflexivity|discriminate].
+Qed.
+
+(* ================================================================================================ *)
+(* Part 7: the reference determines every result                                                      *)
+Lemma bool_iff_eq : forall (b1 b2 : bool) (P : Prop), (b1 = true <-> P) -> (b2 = true <-> P) -> b1 = b2.
+Proof. intros [|] [|] P H1 H2; try reflexivity; [symmetry; apply H2, H1; reflexivity|apply H1, H2; reflexivity]. Qed.
+
+Lemma rcreate_det : forall r u life now now2 tok r1 x1 r2 x2,
+  rcreate r u life now now2 tok r1 x1 -> rcreate r u life now now2 tok r2 x2 -> x1 = x2.
+Proof.
+  intros r u life now now2 tok r1 x1 r2 x2 H1 H2.
+  inversion H1; subst; inversion H2; subst; try reflexivity; try congruence;
+    match goal with A : r_map r u = Some ?e, B : r_map r u = Some ?e' |- _ => rewrite A in B; inversion B; subst end;
+    contradiction.
+Qed.
+
+Lemma live_dead_absurd : forall r t now u, live r t now u -> dead r t now -> False.
+Proof. intros r t now u Hl Hd. apply (live_not_dead _ _ _ _ _ Hl Hd). lia. Qed.
+
+(* the reference leaves no freedom in the results *)
+Lemma rstep_out_deterministic : forall r o r1 x1 r2 x2,
+  tok_unique r -> rstep r o r1 x1 -> rstep r o r2 x2 -> x1 = x2.
+Proof.
+  intros r o r1 x1 r2 x2 Huq H1 H2.
+  inversion H1; subst; inversion H2; subst; try reflexivity; try congruence;
+    try (eapply rcreate_det; eassumption);
+    try (f_equal; f_equal; eapply bool_iff_eq; eassumption);
+    try (exfalso; eapply live_dead_absurd; eassumption).
+  - exfalso. match goal with Hd : dead r t now |- _ => assert (Hh : holder r t u x) by (exists e; auto); specialize (Hd _ _ Hh); lia end.
+  - exfalso. match goal with Hd : dead r t now |- _ => assert (Hh : holder r t u x) by (exists e; auto); specialize (Hd _ _ Hh); lia end.
+  - match goal with A : live r t now ?a, B : live r t now ?b |- _ => destruct A as [xa [Ha _]]; destruct B as [xb [Hb _]]; rewrite (Huq _ _ _ _ _ Ha Hb) end. reflexivity.
+  - match goal with A : live r t now ?a, B : live r t now ?b |- _ => destruct A as [xa [Ha _]]; destruct B as [xb [Hb _]]; rewrite (Huq _ _ _ _ _ Ha Hb) end. reflexivity.
+Qed.
+
+(* ================================================================================================ *)
+(* Part 8: expired or unknown tokens are rejected by every operation, and nothing changes              *)
+Section Plain2.
+  Variable H : Type.
+  Variable hash : pwd -> N -> pepper -> H.
+  Variable verify_hash : H -> pwd -> pepper -> bool.
+  Hypothesis verify_ok : forall pw salt pep pw' pep',
+    verify_hash (hash pw salt pep) pw' pep' = true <-> pw' = pw /\ pep' = pep.
+
+  Notation state := (state H).
+  Notation step := (step H hash verify_hash).
+  Notation run := (run H hash verify_hash).
+  Notation history := (history H hash verify_hash).
+  Notation init := (init H).
+
+  Lemma presented_state : forall (s : state) o t now,
+    presents o = Some (t, now) -> fst (step s o) = s \/ snd (step s o) = Ok VUnit.
+  Proof.
+    intros s o t now Hp. destruct o as [| | | | | |t0 n n2| | |t0 n|[t0|] n|]; cbn in Hp; try discriminate;
+      cbn [Auth.step]; try (left; reflexivity).
+    unfold refresh. destruct (get_user_by_token H (users s) t0); [|left; reflexivity].
+    destruct (session u); [|left; reflexivity]. destruct (valid n s0); [|left; reflexivity].
+    destruct (update_user H _ _); [right|left]; reflexivity.
+  Qed.
+
+  Theorem expired_or_unknown_rejected : forall c pre o t now,
+    rng_ok pre -> presents o = Some (t, now) ->
+    (forall u x, tok_status c (history c pre) t = Some (u, x) -> x <= now) ->
+    step (fst (run (init c) pre)) o = (fst (run (init c) pre), reject_out o).
+  Proof.
+    intros c pre o t now Hr Hp Hdead.
+    pose proof (token_verdict H hash verify_hash verify_ok c pre o t now Hr Hp) as Hv.
+    assert (Hrej : snd (step (fst (run (init c) pre)) o) = reject_out o).
+    { rewrite Hv. unfold verdict. destruct (tok_status c (history c pre) t) as [[u x]|]; [|reflexivity].
+      specialize (Hdead u x eq_refl). destruct (N.ltb_spec now x); [lia|reflexivity]. }
+    destruct (presented_state (fst (run (init c) pre)) o t now Hp) as [Hs|Hs].
+    - rewrite (surjective_pairing (step _ o)). rewrite Hs, Hrej. reflexivity.
+    - rewrite Hrej in Hs. destruct o as [| | | | | |t0 n n2| | |t0 n|[t0|] n|]; cbn in Hp, Hs; discriminate.
+  Qed.
+
+  (* at most one token stands for a given user *)
+  Theorem one_standing_token_per_user : forall c ops t1 t2 u x1 x2,
+    rng_ok ops ->
+    tok_status c (history c ops) t1 = Some (u, x1) -> tok_status c (history c ops) t2 = Some (u, x2) -> t1 = t2.
+  Proof.
+    intros c ops t1 t2 u x1 x2 Hr H1 H2. rewrite <- (app_nil_r ops) in Hr.
+    destruct (reach_inv H hash verify_hash verify_ok c ops [] Hr) as [r [_ [_ Hi]]].
+    pose proof (inv_tok _ _ _ _ _ _ Hi t1) as [_ Hs1]. pose proof (inv_tok _ _ _ _ _ _ Hi t2) as [_ Hs2].
+    apply Hs1 in H1. apply Hs2 in H2. destruct (holder_fun _ _ _ _ _ _ H1 H2). assumption.
+  Qed.
+End Plain2.
